@@ -224,7 +224,7 @@ class PandasModelBase(
         a_is_series = isinstance(a, self.pd.Series)
         b_is_series = isinstance(b, self.pd.Series)
         if (not a_is_series) and (not b_is_series):
-            raise ValueError("at least one argument must be a Pandas series")
+            return b if self.pd.isnull(a) else a  # two scalars
         if not a_is_series:
             a = self.pd.Series(numpy.array([a] * len(b)))
         if not b_is_series:
